@@ -65,6 +65,7 @@ type DefSpec struct {
 	Func     string            `json:"func"`
 	Callback string            `json:"callback"` // name of the completion-callback parameter ("" = the function returns its result)
 	Inline   []InlineSpec      `json:"inline"`
+	Finally  []string          `json:"finally"` // receiver fields (std-library owners of a borrowed descriptor) that are closed by their owner after the calls
 	Init     map[string]string `json:"init"` // receiver fields at entry: path -> "fd#0" | "mapping#0" | "int:0" | "bool:false" | "const:x" | "nil"
 }
 
@@ -1178,6 +1179,11 @@ func (r *run) call(fr *frame, sc *Scope, c *ast.CallExpr) []Val {
 					}
 				}
 			}
+			if st, ok := recv.(*Struct); ok && st != nil && m == "Close" && len(c.Args) == 0 {
+				if v, ok := r.stdClose(st, t); ok {
+					return []Val{v}
+				}
+			}
 			if st, ok := recv.(*Struct); ok && st != nil {
 				// accessors of multi-part resources (os.File): Name() -> the path, Fd() -> the descriptor
 				if m == "Name" {
@@ -1222,6 +1228,21 @@ func (r *run) call(fr *frame, sc *Scope, c *ast.CallExpr) []Val {
 		r.eval(fr, sc, a)
 	}
 	return []Val{&Unknown{origin: t + "()"}, &Unknown{origin: t + "()"}, &Unknown{origin: t + "()"}, &Unknown{origin: t + "()"}}
+}
+
+// stdClose: Close of a standard-library object (net.Conn, os.File) that owns a descriptor and guards its own Close: the
+// first call closes the number it believes it owns — whether or not somebody else already closed that number —, later
+// calls do nothing.
+func (r *run) stdClose(st *Struct, via string) (Val, bool) {
+	flag, ok := st.fields["$stdclosed"].(vBool)
+	if !ok {
+		return nil, false
+	}
+	if flag.b {
+		return vNonNil{}, true
+	}
+	st.fields["$stdclosed"] = vBool{true}
+	return r.release(st, via), true
 }
 
 func (r *run) liveSet() []int {
@@ -1476,7 +1497,17 @@ func (r *run) stmt(fr *frame, sc *Scope, s ast.Stmt) int {
 			case *ast.CallExpr:
 				res = r.call(fr, sc, rh)
 			case *ast.TypeAssertExpr:
-				res = []Val{r.eval(fr, sc, rh.X), &Unknown{origin: "type assertion"}}
+				v := r.eval(fr, sc, rh.X)
+				var ok Val = &Unknown{origin: "type assertion"}
+				if st, isSt := v.(*Struct); isSt && st != nil && rh.Type != nil && r.an.str(rh.Type) == "io.Closer" {
+					// a configured receiver field: either a standard-library closer or explicitly not one
+					if _, has := st.fields["$stdclosed"]; has {
+						ok = vBool{true}
+					} else if _, has := st.fields["$noncloser"]; has {
+						ok = vBool{false}
+					}
+				}
+				res = []Val{v, ok}
 			case *ast.IndexExpr:
 				res = []Val{r.eval(fr, sc, rh), &Unknown{origin: "map lookup"}}
 			case *ast.UnaryExpr:
@@ -1916,6 +1947,23 @@ func (an *analyzer) enumerate(d *DefSpec, times int) (paths []Path, why string) 
 					r.term = nil
 				}
 				ret = r.invoke(d, fd.Type, fd.Body, fd.Recv, recv, nil, nil, nil, true)
+			}
+			if times > 1 {
+				for _, fpath := range d.Finally {
+					cur, _ := recv.(*Struct)
+					for _, part := range strings.Split(fpath, ".") {
+						if cur == nil {
+							break
+						}
+						cur, _ = cur.fields[part].(*Struct)
+					}
+					if cur != nil {
+						r.evs = append(r.evs, Event{Kind: "mark", Via: "then its owner closes " + fpath})
+						if _, ok := r.stdClose(cur, fpath+".Close (owner)"); !ok {
+							r.bad("finally: %s is not a standard-library closer", fpath)
+						}
+					}
+				}
 			}
 			p = r.finish(d, fd, ret, recv)
 		}()
